@@ -1055,6 +1055,11 @@ class SSHProcess(SSHStreamSession, Generic[AnyStr]):
         self._readers = {}
         self._writers = {}
 
+        # Callers of drain() on a redirected stream were waiting for its
+        # reader to finish, which it now never will
+        for datatype in self._drain_waiters:
+            self._unblock_drain(datatype)
+
     def data_received(self, data: AnyStr, datatype: DataType) -> None:
         """Handle incoming data from the SSH channel"""
 
